@@ -51,7 +51,7 @@ func ruleDistributor(w *World, r *Run) {
 		gl := calls(s, cRestGetLatest)
 		nAttemptIncs := 0
 		for _, ie := range calls(s, cInc) {
-			if m, ok := names[ie.Recv.key]; !ok || m == "distribute_rest_attempt" || m == "distribute_rest_success" {
+			if m, ok := counterName(names, ie.Recv); !ok || m == "distribute_rest_attempt" || m == "distribute_rest_success" {
 				nAttemptIncs++
 			}
 		}
@@ -166,7 +166,7 @@ func ruleDistributor(w *World, r *Run) {
 		cnt := map[string]int{}
 		for _, ie := range calls(s, cInc) {
 			if ie.Recv != nil {
-				if m, ok := names[ie.Recv.key]; ok {
+				if m, ok := counterName(names, ie.Recv); ok {
 					// the overall result is read from these two; counters under other metric names (failure reasons, cycles)
 					// are the operator's business and carry their own labels
 					if m != "distribute_rest_attempt" && m != "distribute_rest_success" {
@@ -232,7 +232,7 @@ func ruleDistributeOnce(w *World, r *Run) {
 		// when every attempt succeeded
 		nSucc := 0
 		for _, ie := range calls(s, cInc) {
-			if ie.Recv != nil && names[ie.Recv.key] == "distribute_rest_success" {
+			if m, _ := counterName(names, ie.Recv); ie.Recv != nil && m == "distribute_rest_success" {
 				nSucc++
 			}
 		}
